@@ -1,4 +1,5 @@
 pub mod c04;
+pub mod c05;
 pub mod c12;
 pub mod c13;
 pub mod c14;
@@ -127,6 +128,14 @@ pub fn all() -> Vec<CheckDef> {
             rule: "generated histories (joins, parts, kicks, nick changes, rank/mode changes, disconnects) over 4-6 users with ranked members, then PRIVMSG/NOTICE with 1-5 targets mixing channels, status-prefixed channels (every subset of ~&@%+ on # and & channels), nicks, duplicates and non-existent names; oracle = exact multiset of copies per connection with sender prefix, target and text as sent; non-trivial = a send whose accepted target has a non-empty audience in a case that also had membership/rank churn; distinct by (status letters/audience bucket of the sends, churn kinds)",
             level: "exploration",
             assumptions: SIM_ASSUMPTIONS,
+        },
+        CheckDef {
+            id: "C05",
+            run: c05::run,
+            replay: c05::replay,
+            rule: "role-based session fuzzer: a scripted scene (5 bystanders ranked founder/op/half-op/voice/plain in #c0, an IRC operator, a predefined channel, bans, away/invisible users), the fuzzed connection in one of 10 roles (unregistered, alone, plain, voice, half-op, op, protected, founder, IRC operator, after peers left) sends 1-30 lines from a table of 42 verbs x arity 0..max+2 x 40 parameter shapes (existing/non-existing/own/duplicated names, empty, 1900-byte, multi-byte, wildcard-heavy masks, numeric extremes, sign-switching mode strings, status-prefix soups) or raw bytes (invalid UTF-8, NUL, bare CR, over-long lines, 1-5 byte chunking); oracle = no connection task panics, closes only after ERROR/464 or fatal input on the sender, every bystander answers PING and receives a PRIVMSG from another bystander every 6 lines and at the end; non-trivial = line sent in a registered role; distinct by (verb, arity, parameter-length shape, role)",
+            level: "exploration",
+            assumptions: &["SIM engine (hook H1, in-memory transport); panics are attributed to a connection task by a poll wrapper + panic hook", "panics in detached timer tasks (ping_client_waker SendError after a client left) cannot affect a session and are recorded, not judged"],
         },
         CheckDef {
             id: "C07",
